@@ -4,15 +4,23 @@
 package zenodb
 
 import (
+	"bufio"
+	"encoding/binary"
 	"fmt"
+	"hash/crc32"
+	"io"
+	"io/ioutil"
 	"os"
+	"path/filepath"
 	"strconv"
+	"strings"
 	"sync"
 	"sync/atomic"
 	"time"
 
 	"github.com/getlantern/bytemap"
 	"github.com/getlantern/wal"
+	"github.com/golang/snappy"
 )
 
 // Verification hooks (build tag verif only): counters for exact quiescence,
@@ -103,18 +111,69 @@ func (db *DB) VerifQuiescent(table string) bool {
 	if w == nil {
 		return false
 	}
-	_, latest, err := w.Latest()
+	// (WAL.Latest only looks at the newest segment, which is empty after every reopen)
+	latest, err := verifWALEnd(filepath.Join(db.opts.Dir, "_wal", t.From))
 	if err != nil {
 		return false
 	}
-	if latest != nil {
-		last, ok := verifReadOffsets.Load(fmt.Sprintf("%p/%s", db, table))
-		if !ok || string(last.(wal.Offset)) != string(latest) {
-			return false
-		}
+	last, ok := verifReadOffsets.Load(fmt.Sprintf("%p/%s", db, table))
+	if !ok {
+		return false
+	}
+	lastOffset := last.(wal.Offset)
+	if latest != nil && (lastOffset == nil || latest.After(lastOffset)) {
+		return false
 	}
 	return db.VerifCounter(table, "processed") == db.VerifCounter(table, "read") &&
 		db.VerifCounter(table, "applied") == db.VerifCounter(table, "submitted")
+}
+
+// verifWALEnd returns the offset just after the last complete entry of the WAL
+// in dir (nil if there is none), scanning segments from the newest backwards.
+func verifWALEnd(dir string) (wal.Offset, error) {
+	files, err := ioutil.ReadDir(dir)
+	if err != nil {
+		return nil, err
+	}
+	for i := len(files) - 1; i >= 0; i-- {
+		name := files[i].Name()
+		seq, perr := strconv.ParseInt(strings.TrimSuffix(name, ".snappy"), 10, 64)
+		if perr != nil {
+			continue
+		}
+		f, err := os.Open(filepath.Join(dir, name))
+		if err != nil {
+			return nil, err
+		}
+		var r io.Reader = bufio.NewReaderSize(f, 1<<16)
+		if strings.HasSuffix(name, ".snappy") {
+			r = snappy.NewReader(f)
+		}
+		h := crc32.New(crc32.MakeTable(crc32.Castagnoli))
+		position := int64(0)
+		head := make([]byte, 8)
+		for {
+			if _, err := io.ReadFull(r, head); err != nil {
+				break
+			}
+			length := int64(binary.BigEndian.Uint32(head))
+			b := make([]byte, length)
+			if _, err := io.ReadFull(r, b); err != nil {
+				break
+			}
+			h.Reset()
+			h.Write(b)
+			if h.Sum32() != binary.BigEndian.Uint32(head[4:]) {
+				break
+			}
+			position += 8 + length
+		}
+		f.Close()
+		if position > 0 {
+			return wal.NewOffset(seq, position), nil
+		}
+	}
+	return nil, nil
 }
 
 // verifCoalesced records the size of each coalesced iteration group: counter
